@@ -12,7 +12,39 @@
 
 #include "format_spec.h"
 
+#ifdef VT_NATIVE
+extern "C" unsigned long vt_native_alloc_bytes;  // bytes requested from operator new (spec/vt_native.cpp)
+#endif
+
 namespace vt {
+template <typename T, typename Enable>
+struct AllocMeter;
+template <typename C>
+struct StdAllocMeter {
+  static unsigned long now() {
+#ifdef VT_NATIVE
+    return vt_native_alloc_bytes;
+#else
+    return g_model_alloc_bytes;
+#endif
+  }
+  // every element / character / entry stored costs at least one input byte; real containers grow geometrically
+  static unsigned long per_byte() { return 4 * sizeof(typename C::value_type) + 16; }
+};
+template <typename T>
+struct AllocMeter<std::vector<T>, void> : StdAllocMeter<std::vector<T>> {};
+template <typename Ch>
+struct AllocMeter<std::basic_string<Ch>, void> : StdAllocMeter<std::basic_string<Ch>> {};
+template <typename K, typename T>
+struct AllocMeter<std::map<K, T>, void> {
+  static unsigned long now() { return StdAllocMeter<std::vector<K>>::now(); }
+  static unsigned long per_byte() { return 4 * (sizeof(K) + sizeof(T)) + 64; }
+};
+template <typename K, typename T>
+struct AllocMeter<std::unordered_map<K, T>, void> {
+  static unsigned long now() { return StdAllocMeter<std::vector<K>>::now(); }
+  static unsigned long per_byte() { return 4 * (sizeof(K) + sizeof(T)) + 64; }
+};
 
 // bound on element counts used by the generators and by the specification decoders
 // (equal to the model capacity; inputs that need more are outside the explored space)
